@@ -23,7 +23,42 @@ MAIN = 'server/enip/main.py'; UCMM = 'server/enip/ucmm.py'; AUTO = 'automata.py'
 TIMES = 'history/times.py'; HFILES = 'history/files.py'; TNETS = 'server/tnetstrings.py'; TNET = 'server/tnet.py'; GETATTR = 'server/enip/get_attribute.py'
 POLL = 'server/enip/poll.py'; DEFAULTS = 'server/enip/defaults.py'; NETWORK = 'server/network.py'
 
+_NCP_OLD = ( "specificity = { size, variable, type, redundant, priority }",
+             """(
+                      (( 1 if variable  is None else variable  ) <<  9 )
+                    + (( 0 if priority  is None else priority  ) << 10 )
+                    + (( 2 if type      is None else type      ) << 13 )
+                    + (( 0 if redundant is None else redundant ) << 15 )
+                ) << ( 16 if self._large else 0 )""",
+             """variable	= 0b01 & self._NCP >> (  9 + ( 16 if self._large else 0 )),
+            priority	= 0b11 & self._NCP >> ( 10 + ( 16 if self._large else 0 )),
+            type	= 0b11 & self._NCP >> ( 13 + ( 16 if self._large else 0 )),
+            redundant	= 0b01 & self._NCP >> ( 15 + ( 16 if self._large else 0 )),
+            large	= self._large,
+            NCP		= self._NCP,
+        )""",
+             "PRIO_LO = 0b00" )
+def _ncp_new( shift ):
+    return ( "supplied		= dict( variable=variable, priority=priority, type=type, redundant=redundant )\n        specificity		= { size } | set( supplied.values() )",
+             """sum(( default if supplied[name] is None else supplied[name] ) << shift
+                    for name,shift,mask,default in self.NCP_FIELDS )
+                << ( 16 if self._large else 0 )""",
+             """)
+        for name,shift,mask,default in self.NCP_FIELDS:
+            parameters[name]	= mask & self._NCP >> ( shift + ( 16 if self._large else 0 ))
+        parameters.large	= self._large
+        parameters.NCP		= self._NCP""",
+             """NCP_FIELDS			= (
+        ( 'variable',	 9, 0b01, 1 ),
+        ( 'priority',	%d, 0b11, 0 ),
+        ( 'type',	13, 0b11, 2 ),
+        ( 'redundant',	15, 0b01, 0 ),
+    )
+    PRIO_LO			= 0b00""" % shift )
+
 VARIANTS = [
+    V( 'ncp-fields-in-one-table', DEFAULTS, _NCP_OLD, _ncp_new( 10 ), silent=[ 'T-NCP', 'K-NCPSTATE' ] ),
+    V( 'ncp-table-priority-at-its-high-bit', DEFAULTS, _NCP_OLD, _ncp_new( 11 ), fires=[ 'T-NCP' ] ),
     V( 'struct-index-not-scaled', AUTO, "beg = self.offset + self.index * siz", "beg			= self.offset + self.index", fires=[ 'T-TYPES' ] ),
     V( 'struct-class-format-compiled', AUTO, "self._struct = struct.Struct( self.struct_format )", "self._struct		= struct.Struct( type( self ).struct_format )", fires=[ 'T-TYPES' ] ),
     V( 'struct-unpack-at-offset', AUTO, "buf = data[ours+self._input][beg:end]\n val = self._struct.unpack_from( buffer=buf )[0]",
@@ -635,9 +670,17 @@ VARIANTS = [
 
 def _pattern( old ):
     # a space in `old` stands for any run of blanks/tabs (also none); '\n ' for a newline followed by any indentation
-    esc = re.escape( old )
-    esc = esc.replace( '\\\n\\ ', '[ \\t]*\\n[ \\t]*' ).replace( '\\\n', '[ \\t]*\\n[ \\t]*' ).replace( '\\ ', '[ \\t]*' )
-    return re.compile( esc )
+    # ( runs of blanks are collapsed first: one `[ \\t]*` per run - a sequence of them backtracks exponentially where the text does not match )
+    parts = re.split( r'([ \t]*\n[ \t]*|[ \t]+)', old )
+    out = []
+    for k, part in enumerate( parts ):
+        if k % 2 == 0:
+            out.append( re.escape( part ))
+        elif '\n' in part:
+            out.append( '[ \\t]*\\n[ \\t]*' )
+        else:
+            out.append( '[ \\t]*' )
+    return re.compile( ''.join( out ))
 
 
 def apply_variant( v, root ):
@@ -646,11 +689,14 @@ def apply_variant( v, root ):
     if not os.path.exists( path ):
         return None, 'file absent'
     text = open( path, encoding='utf-8', errors='replace' ).read()
-    pat = _pattern( v['old'] )
-    hits = pat.findall( text )
-    if len( hits ) != 1:
-        return None, 'anchor matched %d times' % len( hits )
-    new = pat.sub( lambda m: v['new'], text, count=1 )
+    olds, news = ( v['old'], v['new'] ) if isinstance( v['old'], tuple ) else (( v['old'], ), ( v['new'], ))	# several edits of one file: tuples
+    new = text
+    for o_, n_ in zip( olds, news ):
+        pat = _pattern( o_ )
+        hits = pat.findall( new )
+        if len( hits ) != 1:
+            return None, 'anchor matched %d times' % len( hits )
+        new = pat.sub( lambda m: n_, new, count=1 )
     try:
         compile( new, v['file'], 'exec' )
     except SyntaxError as exc:
